@@ -21,13 +21,14 @@ META = {
             "interpreter + term are compared with wazero on the exported helpers.",
     "note": "Trusted: Lean kernel; the hand-written model's tie to the WAT is differential (correspondence), not a refinement proof; wazero "
             "executes the WAT; the oracle in harness/c10 (overlap/alignment/bounds/size/canary/header/tiling/zero-condition on the real heap). "
-            "Excluded by guards and reported as findings: malloc(0) with the fixed lists disabled; configurations whose maximum memory lets "
-            "heap_ptr + block reach 2^31 (signed wrap); growth ignoring slack (the failure condition proved is the code's exact one). "
+            "Reported as finding: growth ignoring slack (the failure condition proved is the code's exact one). The two former exclusions "
+            "(malloc(0) with the fixed lists disabled; heap_ptr + block reaching 2^31) were repaired in /repo and are now covered by the theorems "
+            "(malloc0_nofixed_repaired, bump_wrap_repaired) and by ordinary generated operations and probes. "
             "Not proved: rover-in-ring and fixed-list length <= capacity (checked by the oracle on the real heap after every op); the "
             "loop-carrying WAT functions are tied by correspondence only; i32 in the helper interpreter is modelled as wrapped Int.",
     "technique": "Lean 4 proof over hand-written model + differential correspondence incl. write-log + oracle on the real heap + regenerated WAT tie",
 }
-REQUIRED = ["live_disjoint", "live_in_heap", "live_aligned8", "live_size_ge_request", "tiling",
+REQUIRED = ["malloc0_nofixed_repaired", "bump_wrap_repaired", "live_disjoint", "live_in_heap", "live_aligned8", "live_size_ge_request", "tiling",
             "free_list_sorted_nonadjacent", "writes_outside_live_payloads", "malloc_zero_iff"]
 
 REQUIRED_WAT = ["gen_alignment8", "gen_ptr_and_fixed_size", "gen_is_fixed_size", "gen_block_data",
@@ -133,7 +134,7 @@ def field(line, name):
 def eff_size(cap, req):
     a = (req + 7) // 8 * 8
     if cap == 0:
-        return a
+        return a or 8
     if a > 128:
         return a
     if a > 80:
@@ -172,8 +173,6 @@ class Gen:
             s = max(0, room + rng.choice([-PAGE - 8, -PAGE, -PAGE + 8, -24, -16, -8, -1, 0, 1, 8, 16, 4096]))
             if rng.random() < 0.5:
                 s = max(0, s // rng.choice([2, 3, 4]))
-        if cap == 0 and s == 0:
-            s = rng.choice([1, 8])          # the known trigger class is exercised by dedicated probes only
         return min(max(s, 0), 1 << 30)
 
     def next(self):
@@ -269,9 +268,9 @@ def classify(prev, cur, op):
 
 PROBES = [
     # (name, cfg, script)
-    ("malloc0-nofixed-fresh", (1, 2, 100, 1000, 0), ["m 0!"]),
-    ("malloc0-nofixed-after-traffic", (1, 2, 100, 1000, 0), ["m 100", "m 200", "m 50", "f @1", "m 64", "m 0!"]),
-    ("malloc0-nofixed-rover-last", (1, 2, 100, 1000, 0), ["m 100", "m 100", "m 100", "m 100", "f @1", "f @2", "m 8", "m 0!"]),
+    ("malloc0-nofixed-fresh", (1, 2, 100, 1000, 0), ["m 0", "m 0", "m 16", "f @0", "m 0", "f @1"]),
+    ("malloc0-nofixed-after-traffic", (1, 2, 100, 1000, 0), ["m 100", "m 200", "m 50", "f @1", "m 64", "m 0", "m 8", "f @4", "m 0"]),
+    ("malloc0-nofixed-rover-last", (1, 2, 100, 1000, 0), ["m 100", "m 100", "m 100", "m 100", "f @1", "f @2", "m 8", "m 0", "m 100", "f @5", "m 0"]),
     ("growth-slack", (1, 2, 100, 1000, 3), ["m 60000", "m 70000", "m 65000"]),
     ("test-largeSize", (1, 2, 100, 1000, 3), ["m 64536", "f @0", "m 64636", "m 65536"]),
     ("flush-cap1", (1, 2, 100, 1000, 1), ["m 1", "m 1", "m 1", "f @0", "f @2", "f @1", "m 1", "m 24", "m 25"]),
@@ -280,10 +279,11 @@ PROBES = [
     ("exact-page-eq", (1, 2, 100, 1000, 3), ["m %d" % (65536 - 1048 - 8), "m 1"]),
     ("max-exhaust", (1, 1, 100, 1000, 3), ["m 30000", "m 30000", "m 4000", "m 400", "m 80", "m 24", "f @0", "m 29000", "m 900", "m 30000"]),
 ]
-# heap_ptr + block >= 2^31: needs >= 1 GiB of linear memory.  The quick variant starts with 1 GiB of (untouched, lazily
-# mapped) initial memory and a heap base at 2^30; the thorough variant grows there through memory.grow (slow: wazero copies).
-BIG_PROBE = ("bump-i32-wrap", (16385, 32767, 100, 1 << 30, 3), ["m 8", "m 1073741824!"])
-BIG_PROBE_GROW = ("bump-i32-wrap-after-grow", (1, 32767, 100, 1000, 3), ["m 1073741824", "m 1073741824!"])
+# heap_ptr + block >= 2^31 (repaired by 786cf0e: must return 0 and leave the heap intact): needs >= 1 GiB of linear memory.
+# The quick variant starts with 1 GiB of (untouched, lazily mapped) initial memory and a heap base at 2^30; the thorough
+# variant grows there through memory.grow (slow: wazero copies).
+BIG_PROBE = ("bump-i32-wrap", (16385, 32767, 100, 1 << 30, 3), ["m 8", "m 1073741824", "m 100", "f @0", "m 1073741000", "m 24"])
+BIG_PROBE_GROW = ("bump-i32-wrap-after-grow", (1, 32767, 100, 1000, 3), ["m 1073741824", "m 1073741824", "m 64"])
 
 
 def run(ctx):
@@ -459,9 +459,8 @@ def run(ctx):
         "helper_wat_ops_compared": helper_lines,
     }
     return ctx.finish("proof", cov,
-                      assumptions=["CfgWF: 0 < stackPtr < heapBase, heapBase % 8 = 0, heapBase+48 < pages*64K, pages <= maxPages <= 16383 "
-                                   "(so heap_ptr + 8 + size < 2^31 for size <= 2^30); requests <= 2^30; frees only of live blocks",
-                                   "OpOK: malloc(0) with the fixed lists disabled is excluded (known trigger; the real code returns the list head)",
+                      assumptions=["CfgWF: 0 < stackPtr < heapBase, heapBase % 8 = 0, heapBase+48 < pages*64K, pages <= maxPages <= 32767 "
+                                   "(all addresses signed-positive); OpOK: requests <= 2^30; frees only of live blocks",
                                    "'can be satisfied' is read with the allocator's size-class rounding (24/32/48/80, at least 128 above 80)",
                                    "the abstract model keeps the ring as an address-ordered list; the K&R position search is modelled by its result"],
                       trusted_base=["hand-written Lean model WaVerif/Model/C10.lean tied by the correspondence run (harness/c10, wazero executing malloc.wat)",
